@@ -104,7 +104,7 @@ def handleLimit (args : List String) (obs : String) : String :=
 
 /-- c12e `<n> <rounds>`: accept failures by descriptor exhaustion. -/
 def handleEmfile (args : List String) (obs : String) : String :=
-  match args.mapM String.toNat? with
+  match (args.take 2).mapM String.toNat? with
   | some [n, rounds] =>
     let evs := (List.replicate rounds [Ev.grant, .acceptErr, .wake, .grant, .acceptOk, .connEnd]).flatten
     let s1 := run false (Srv.new n) evs
@@ -112,9 +112,11 @@ def handleEmfile (args : List String) (obs : String) : String :=
     let full := (s2.map (·.serving)) == some n
     let s3 := s2.bind fun s => run false s [.revoke, .seeRevoked]
     let b := fun (x : Bool) => if x then "1" else "0"
-    let model := s!"starved={rounds} served={if s1.isSome then rounds else 0} emfile_logged=1 full={b full} fresh={if full then n else 0} max={(s2.map (·.serving)).getD 0} stopped={b ((s3.map (·.acc)) == some Acc.stopped)}"
+    let model := s!"starved={rounds} dropped=0 served={if s1.isSome then rounds else 0} emfile_logged=1 full={b full} fresh={if full then n else 0} max={(s2.map (·.serving)).getD 0} stopped={b ((s3.map (·.acc)) == some Acc.stopped)}"
     let verdict := Id.run do
       if obs.startsWith "no-prlimit" ∨ obs.startsWith "noconn" then return "free"
+      -- a client waiting in the backlog was disconnected: the failed accept took the listener (the accept loop) down
+      if (field obs "dropped").toNat! > 0 then return "FAIL:accept-failure-stopped-the-server:"
       if (field obs "starved").toNat! < rounds ∨ field obs "emfile_logged" != "1" then return "free"   -- the injection did not take
       let mut fails : List String := []
       if (field obs "served").toNat! != rounds then fails := fails ++ ["connection-lost-after-accept-failure"]
